@@ -335,10 +335,30 @@ def inst_fp(x):
     return json.dumps(AP.deep_canon(x), sort_keys=True, default=str) + "|" + ser
 
 
+def field_state(cls):
+    """every other mutable container held by a field object of the class or by the typedpy classes it is an
+    instance of (class-level literals such as a shared schema dict), found by introspection"""
+    out = {}
+    for n, f in cls.get_all_fields_by_name().items():
+        d = {}
+        for k, v in vars(f).items():
+            if k not in ("values", "_default") and isinstance(v, (dict, list, set)):
+                d[k] = v
+        for c in type(f).__mro__:
+            if getattr(c, "__module__", "").startswith("typedpy"):
+                for k, v in vars(c).items():
+                    if isinstance(v, (dict, list, set)) and not k.startswith("__"):
+                        d[c.__name__ + "." + k] = v
+        if d:
+            out[n] = d
+    return out
+
+
 def cls_state(cls):
     """the class-level objects an operation could leak or edit"""
     fields = cls.get_all_fields_by_name()
     return {"required": getattr(cls, "_required", None),
+            "fieldState": field_state(cls),
             "fields": list(fields),
             "mapper": getattr(cls, "_serialization_mapper", None),
             "enumValues": {n: getattr(f, "values") for n, f in fields.items()
@@ -349,12 +369,58 @@ def cls_state(cls):
 
 def cls_fp(cls):
     try:
-        sch = AP.deep_canon(structure_to_schema(cls, {}))
+        schema, defs = structure_to_schema(cls, {})
+        sch = AP.deep_canon([schema, defs])
+        try:
+            sch = [sch, schema_to_struct_code("Gen", schema, defs, additional_fields=_ext_classes())]
+        except Exception as e:
+            sch = [sch, "code-raises:" + type(e).__name__]
     except Exception as e:
         sch = "schema-raises:" + type(e).__name__
     st = cls_state(cls)
     st["optional"] = getattr(cls, "_optional", None)
     return json.dumps([AP.deep_canon(st), sch], sort_keys=True, default=str)
+
+
+# ------------------------------------------------------------------ hand-built classes: ext field kinds, defaults
+
+def _ext_kinds():
+    import datetime
+    import decimal
+    import typedpy as T
+    arr = lambda **k: T.Array(items=T.Integer(), **k)
+    return {
+        "IPV4": (T.IPV4, "1.2.3.4"), "HostName": (T.HostName, "host.example.com"),
+        "EmailAddress": (lambda **k: T.String(pattern=T.EmailAddress.pattern, **k), "a@b.com"),
+        "DateString": (T.DateString, "2020-01-02"), "TimeString": (T.TimeString, "10:20:30"),
+        "DateField": (T.DateField, datetime.date(2020, 1, 2)), "DecimalNumber": (T.DecimalNumber, decimal.Decimal("1.5")),
+        "JSONString": (T.JSONString, '{"a": 1}'), "String": (T.String, "s"), "Integer": (T.Integer, 3),
+        "Array": (arr, [1, 2]), "Map": (T.Map, {"k": [1]}), "Set": (T.Set, {1, 2}),
+        "Enum": (lambda **k: T.Enum(values=["S", "M", "L"], **k), "S"),
+    }
+
+
+def _ext_classes():
+    import typedpy as T
+    return [c for c in (T.IPV4, T.HostName, T.DateString, T.TimeString, T.DateField, T.JSONString)
+            if hasattr(c, "from_json_schema")]
+
+
+def build_ext_class(name, spec, with_defaults=True):
+    """spec: [[field name, ext kind, default mode]], default mode = "none" | "plain" (the value itself, also when it
+    is a list/dict: keyword form `Array(items=..., default=[1, 2])`) | "callable" """
+    kinds = _ext_kinds()
+    body = {}
+    for fname, kind, dmode in spec:
+        mk, val = kinds[kind]
+        if not with_defaults or dmode == "none":
+            body[fname] = mk()
+        elif dmode == "callable":
+            body[fname] = mk(default=(lambda v=val: copy.deepcopy(v)))
+        else:
+            body[fname] = mk(default=copy.deepcopy(val))
+    body["_required"] = []
+    return type(name, (Structure,), body)
 
 
 # ------------------------------------------------------------------ situations (one fresh world per call)
@@ -363,8 +429,9 @@ class Situation:
     """args: objects whose deep snapshot must not change; source: graph the operation reads;
     shape: declared type of source; call() -> (sink, visible, protected fingerprint thunk)"""
 
-    def __init__(self, args, source, shape, call, top_kind="root"):
+    def __init__(self, args, source, shape, call, top_kind="root", world=None):
         self.args, self.source, self.shape, self.call, self.top_kind = args, source, shape, call, top_kind
+        self.world = world      # optional thunk: fingerprint of OTHER classes, compared around the call
 
 
 def _build(case):
@@ -454,22 +521,33 @@ def situation(case):
             return res, res, lambda: json.dumps(AP.deep_canon(source), sort_keys=True, default=str)
         return Situation([doc, mappings], source, shape, call)
 
-    ctx, cls = _build(case)
-    decl = case["cls"]
+    world = None
+    if case.get("ext"):
+        # hand-built class over the ext field kinds (with / without defaults) and a sibling class over the same
+        # kinds: whatever is done to / with the first class must not change what the sibling maps to
+        cls = build_ext_class("Ext" + str(case.get("n", 0)), case["ext"])
+        sibling = build_ext_class("Sib" + str(case.get("n", 0)), case["ext"], with_defaults=False)
+        decl = {"k": "struct", "name": cls.__name__, "required": [], "addl": True, "fields": []}
+        world = lambda: cls_fp(sibling)
+    else:
+        ctx, cls = _build(case)
+        decl = case["cls"]
     if op in ("toSchema", "schemaToCode", "derive"):
         state = cls_state(cls)
         shape = {"k": "root", "fields": [["required", {"w": "required", "inner": "any"}],
                                          ["mapper", {"w": "mapping", "inner": "any"}],
                                          ["enumValues", {"w": "enumValues", "inner": "any"}],
                                          ["default", {"w": "default", "inner": "any"}],
+                                         ["fieldState", {"w": "fieldState", "inner": "any"}],
                                          ["names", {"w": "names", "inner": "any"}]]}
         if op == "toSchema":
             defs = {}
 
             def call():
                 schema, d2 = structure_to_schema(cls, defs)
-                return [schema, d2], schema, lambda: cls_fp(cls)
-            return Situation([state], state, shape, call)
+                return [schema, d2], [schema, d2], \
+                    lambda: cls_fp(cls) + ("|" + world() if world else "")
+            return Situation([state], state, shape, call, world=world)
         if op == "schemaToCode":
             schema, defs = structure_to_schema(cls, {})
             holder = {"schema": schema, "definitions": defs}
@@ -477,9 +555,9 @@ def situation(case):
                                               ["definitions", {"w": "schema", "inner": "any"}]]}
 
             def call():
-                code = schema_to_struct_code("Gen" + cls.__name__, schema, defs)
+                code = schema_to_struct_code("Gen" + cls.__name__, schema, defs, additional_fields=_ext_classes())
                 return code, code, lambda: json.dumps(AP.deep_canon(holder), sort_keys=True, default=str)
-            return Situation([holder], holder, sshape, call)
+            return Situation([holder], holder, sshape, call, world=world)
         names = list(case.get("names", []))
         how = case["how"]
         state["names"] = names
@@ -506,23 +584,33 @@ def situation(case):
         # the values come from ANOTHER INSTANCE (typed wrappers, not plain data): Cls(**values of src),
         # shallow_clone_with_overrides, from_other_class, cast_to a subclass.  `mirror`: the caller then pokes the
         # new instance and the source instance is the one that must not change.
-        src = cls(**_kw(case, ctx))
+        target = cls
+        if case.get("konst"):
+            # a subclass that declares a Constant (inheritance + constants): source and target class
+            target = type(cls.__name__ + "K", (cls,), {"kind_k": Constant("k")})
+        src = target(**_kw(case, ctx))
         how, mirror = case["src"], bool(case.get("mirror"))
+        ignore = [n for n in (case.get("ignore") or [])]          # the caller's own list
+        overrides = {n: getattr(src, n) for n in ignore if n in src.__dict__}
         if how == "instance":
-            source = {k: getattr(src, k) for k in list(src.__dict__) if k not in dump.INTERNAL}
+            source = {k: getattr(src, k) for k in list(src.__dict__) if k not in dump.INTERNAL and k != "kind_k"}
         else:
             source = src
-        sit = Situation([source], source, struct_shape(decl, source, "root"), None)
+        sit = Situation([source, ignore, overrides], source, struct_shape(decl, source, "root"), None)
 
         def call():
             if how == "instance":
-                x = cls(**source)
+                x = target(**source)
             elif how == "clone":
-                x = src.shallow_clone_with_overrides()
+                x = src.shallow_clone_with_overrides(**overrides)
             elif how == "from_other_class":
-                x = cls.from_other_class(src)
+                x = target.from_other_class(src, ignore_props=ignore, **overrides) if ignore \
+                    else target.from_other_class(src)
+            elif how == "to_other_class":
+                x = src.to_other_class(target, ignore_props=ignore, **overrides) if ignore \
+                    else src.to_other_class(target)
             else:
-                x = src.cast_to(type(cls.__name__ + "Sub", (cls,), {}))
+                x = src.cast_to(type(target.__name__ + "Sub", (target,), {}))
             sit.shape = prune_extras(struct_shape(decl, source, "root"), x)
             if mirror:
                 return x, x, lambda: inst_fp(src)
@@ -630,6 +718,7 @@ def run_impl(case):
         return {"unbuildable": f"{type(e).__name__}: {e}"[:300]}
     res = {"topKind": sit.top_kind}
     before = json.dumps(AP.deep_canon(sit.args), sort_keys=True, default=str)
+    world0 = sit.world() if sit.world else None
     cells, src = AP.heapify(sit.source)
     graph = AP.object_graph(sit.source)
     index = {}
@@ -648,11 +737,19 @@ def run_impl(case):
         sink = None
     after = json.dumps(AP.deep_canon(sit.args), sort_keys=True, default=str)
     res["args_same"] = before == after
+    if sit.world:
+        res["world_same"] = sit.world() == world0
     res["shape"] = sit.shape
     if not res["ok"]:
         return res
     gk = AP.object_graph(sink)
     shared = sorted(index[i] for i, (p, o) in graph.items() if i in gk and AP.node_tag(o) in AP.MUTABLE_TAGS)
+    if case["op"] in ("toSchema", "schemaToCode", "derive"):
+        # the per-site holder dicts of cls_state are harness objects, not typedpy's: no verdict about them
+        holders = [[], ["fieldState"], ["enumValues"], ["default"], ["fields"]]
+        res["holders"] = sorted(index[i] for i, (p, o) in graph.items()
+                                if list(p) in holders or (len(p) == 2 and p[0] == "fieldState"))
+        shared = [a for a in shared if a not in res["holders"]]
     res["shared"] = shared
     res["shared_paths"] = sorted(list(graph[id(order[a])][0]) for a in shared)
     # immutable containers (tuples, frozensets) that are handed on as they are: only used to find the topmost
@@ -718,6 +815,9 @@ def judge(case, impl, model):
     if not impl.get("args_same", True):
         fails.append((f"arg-mutated:{op}", f"{op} changed one of its arguments (deep snapshot differs); "
                       f"model argsSame={model.get('argsSame')}"))
+    if impl.get("world_same") is False:
+        fails.append((f"other-class-changed:{op}", f"{op} on one class changed what ANOTHER class over the same field kinds "
+                      f"maps to (schema / generated code of the sibling class differ before and after the call)"))
     if model.get("skip") and not immutable_output(case) and not oracle_only(case):
         return None, fails
     if not model.get("skip") and model.get("argsSame") != impl.get("args_same"):
@@ -731,7 +831,7 @@ def judge(case, impl, model):
             if "error" not in modes.values():
                 msg = msg or (f"real {op} succeeded but the model says it raises (a container where a scalar is "
                               f"declared?) for {json.dumps(impl['shape'])[:200]}")
-        elif sorted(model.get("shared", [])) != sorted(impl.get("shared", [])):
+        elif sorted(a for a in model.get("shared", []) if a not in impl.get("holders", [])) != sorted(impl.get("shared", [])):
             msg = msg or (f"aliasing differs for {op}: real shares source cells {impl.get('shared')} "
                           f"(paths {impl.get('shared_paths')}), model predicts {model.get('shared')}")
         # poke oracle (and identity verdict) -> findings keyed by the responsible table site
@@ -743,8 +843,13 @@ def judge(case, impl, model):
         for path, label in hits:
             vis_path = list(path)
             if op in ("toSchema",):
-                key = f"result-aliases-internal:{op}:schema"
-                fails.append((key, f"mutating the returned schema at {path} ({label}) changed the class"))
+                # blame the class-level site whose object the returned schema contains (identity verdict)
+                sites = sorted({q[0] for q in impl.get("shared_paths", []) if q}) or ["schema"]
+                for site in sites:
+                    fails.append((f"result-aliases-internal:{op}:{site}",
+                                  f"mutating the returned schema at {path} ({label}) changed the class or a sibling "
+                                  f"class (the schema contains the live `{site}` object "
+                                  f"{[q for q in impl.get('shared_paths', []) if q and q[0] == site][:2]})"))
                 continue
             if op == "convert":
                 fails.append((f"result-aliases-arg:{op}", f"mutating the converted document at {path} ({label}) "
@@ -870,8 +975,10 @@ def _gen_cases(rng, tier, n_classes):
         base = {"suite": "alias", "cls": cls}
         cases.append(dict(base, op="construct", kw=kw))
         # values taken from another instance (typed wrappers as input), both poke directions
-        how = rng.choice(["instance", "clone", "from_other_class", "cast"])
-        cases.append(dict(base, op="construct", kw=kw, src=how, mirror=rng.random() < 0.5))
+        how = rng.choice(["instance", "clone", "from_other_class", "to_other_class", "cast"])
+        present = [k for k, _ in kw if k in dict(cls["fields"])]
+        cases.append(dict(base, op="construct", kw=kw, src=how, mirror=rng.random() < 0.5, konst=rng.random() < 0.5,
+                          ignore=rng.sample(present, rng.randint(0, min(2, len(present))))))
         if rng.random() < 0.4:
             bad = [[k, (vg.corrupt(v) if rng.random() < 0.7 else rng.choice(vg.confusion()))] for k, v in kw]
             cases.append(dict(base, op="construct", kw=bad, stream="corrupt"))
@@ -1076,9 +1183,27 @@ def directed_cases():
                             ["t", {"k": "tuplePos", "items": [ARR_INT, INT]}], ["a", ARR_INT]])
     nkw = [["rows", {"l": [{"l": [1, 2]}, {"l": [3]}]}], ["cells", {"l": [{"m": [["k", 1]]}]}], ["m", {"m": [["k", {"l": [1]}]]}],
            ["dq", {"q": [{"l": [1]}]}], ["t", {"t": [{"l": [1]}, 2]}], ["a", {"l": [1, 2]}]]
-    for how in ("instance", "clone", "from_other_class", "cast"):
+    for how in ("instance", "clone", "from_other_class", "to_other_class", "cast"):
         for mirror in (False, True):
             out.append({"suite": "alias", "op": "construct", "cls": nestd, "kw": nkw, "src": how, "mirror": mirror})
+    # the alternative constructors with a caller-owned ignore list and override kwargs, classes with / without a
+    # Constant (declared in a subclass: inheritance)
+    for how in ("from_other_class", "to_other_class", "clone"):
+        for konst in (False, True):
+            for ignore in (["a"], ["rows", "m"]):
+                out.append({"suite": "alias", "op": "construct", "cls": nestd, "kw": nkw, "src": how, "konst": konst,
+                            "ignore": ignore})
+    # schema stream over the ext field kinds, with and without defaults (plain value, callable), sibling class
+    # over the same kinds re-exported before/after; history "export a class with defaulted fields, then another"
+    kinds = ["IPV4", "HostName", "EmailAddress", "DateString", "TimeString", "DateField", "DecimalNumber",
+             "JSONString", "String", "Integer", "Array", "Map", "Set", "Enum"]
+    n = 0
+    for dmode in ("none", "plain", "callable"):
+        for i in range(0, len(kinds), 5):
+            spec = [[f"f{j}", k, dmode] for j, k in enumerate(kinds[i:i + 5])]
+            for op in ("toSchema", "schemaToCode"):
+                n += 1
+                out.append({"suite": "alias", "op": op, "ext": spec, "n": n})
     for nm, _ in nkw:
         for mirror in (False, True):
             out.append({"suite": "alias", "op": "setattr", "cls": nestd, "kw": nkw, "field": nm, "fromInstance": True,
